@@ -474,6 +474,72 @@ class Gen:
             pieces.append(E("otherwise", [sub()]))
         return E("piecewise", pieces)
 
+    def units_chain_pair(self, m, utaken, units_names):
+        """adds to model m a chain u1 = base^e1 [* base2^f], u2 = u1^e2, ..., ud = u(d-1)^ed and a partner of the same
+        dimension built differently (flat, or flat wrapped once); returns the two names; records the shape in m.chains"""
+        r = self.r
+        depth = r.choice([1, 2, 2, 3, 3, 3, 4, 4])
+        exps = [r.choice([(2, 1), (3, 1), (-1, 1), (-2, 1), (1, 2), (2, 1), (1, 1)]) for _ in range(depth)]
+        if depth >= 3 and all(e == (1, 1) for e in exps[1:]):
+            exps[-1] = (2, 1)
+        base = r.choice(["metre", "second", "kilogram", "ampere", "volt", "litre"])
+        base2 = r.choice([None, None, "mole", "kelvin"])
+        f2 = r.choice([(1, 1), (-1, 1), (2, 1)])
+        pre = lambda: r.choice(["", "", "milli", "kilo", "3", "-2"])   # noqa: E731
+        mul = lambda: (r.choice([0, 0, 3, -2, 1]), 1)                   # noqa: E731
+        names = []
+        prev = None
+        for lvl in range(depth):
+            u = Units(self.ident(utaken, STANDARD_UNITS), self.maybe_id())
+            if lvl == 0:
+                u.items.append(Item(base, pre(), exps[0], mul(), self.maybe_id()))
+                if base2:
+                    u.items.append(Item(base2, pre(), f2, mul()))
+            else:
+                u.items.append(Item(prev, pre(), exps[lvl], mul(), self.maybe_id()))
+            m.units.insert(r.randrange(len(m.units) + 1), u)
+            units_names.append(u.name)
+            names.append(u.name)
+            prev = u.name
+        # total exponents
+        num, den = 1, 1
+        for (a, b) in exps:
+            num, den = num * a, den * b
+        outer = (1, 1)
+        for (a, b) in exps[1:]:
+            outer = (outer[0] * a, outer[1] * b)
+
+        def mulq(q, k):
+            n_, d_ = q[0] * k[0], q[1] * k[1]
+            from math import gcd
+            g_ = gcd(abs(n_), d_)
+            return (n_ // g_, d_ // g_)
+        total1 = mulq((num, den), (1, 1))
+        total2 = mulq(f2, outer) if base2 else None
+        partner = Units(self.ident(utaken, STANDARD_UNITS), self.maybe_id())
+        kind = r.choice(["flat", "flat", "wrapped", "split"])
+        if kind == "split" and total1[1] == 1 and abs(total1[0]) >= 2:
+            # base^total as base^(total-1) * base^1
+            one = 1 if total1[0] > 0 else -1
+            partner.items.append(Item(base, pre(), (total1[0] - one, 1), mul()))
+            partner.items.append(Item(base, pre(), (one, 1), mul()))
+        else:
+            partner.items.append(Item(base, pre(), total1, mul()))
+        if base2:
+            partner.items.append(Item(base2, pre(), total2, mul()))
+        m.units.insert(r.randrange(len(m.units) + 1), partner)
+        units_names.append(partner.name)
+        pname = partner.name
+        if kind == "wrapped":
+            wrap = Units(self.ident(utaken, STANDARD_UNITS), "", None, [Item(partner.name, pre(), (1, 1), mul())])
+            m.units.append(wrap)
+            units_names.append(wrap.name)
+            pname = wrap.name
+        if not hasattr(m, "chains"):
+            m.chains = []
+        m.chains.append({"levels": names, "exps": exps, "top": names[-1], "partner": pname, "depth": depth, "partner_kind": kind})
+        return [names[-1], pname]
+
     def math_doc(self, vars_, units_names):
         r = self.r
         eqs = []
@@ -641,11 +707,38 @@ class Gen:
                 deg[a.tag] = deg.get(a.tag, 0) + 1
                 deg[bv.tag] = deg.get(bv.tag, 0) + 1
                 group[find(a.tag)] = find(bv.tag)
+        # a variable inside an IMPORTED component mapped to a variable of a reachable component (validateConnections skips
+        # the imported side and must go on with the variables that follow it in traversal order)
+        for ic in [c for c in comps if c.imp is not None]:
+            if r.random() > 0.5:
+                continue
+            pi = m.parent_of(ic)
+            near = [d for d in real if m.parent_of(d) is pi or d is pi]
+            near = [d for d in near if any(deg.get(x.tag, 0) < 2 for x in d.vars)]
+            if not near:
+                continue
+            d = r.choice(near)
+            x = r.choice([x for x in d.vars if deg.get(x.tag, 0) < 2])
+            wv = Var(self.fresh_tag(), self.ident(set()), r.choice(["second", "volt"]), "", r.choice(["", "public", "none", "private"]))
+            ic.vars.append(wv)
+            add_equivalence(m, *( (wv.tag, x.tag) if r.random() < 0.5 else (x.tag, wv.tag) ))
+            deg[x.tag] = deg.get(x.tag, 0) + 1
+            deg[wv.tag] = 1
+            group[find(wv.tag)] = find(x.tag)
+            sib = pi.kids if pi is not None else m.comps
+            if r.random() < 0.7:
+                sib.remove(ic)
+                sib.insert(0, ic)            # first among its siblings: the connection checks of the others come after it
+            m.import_vars = getattr(m, "import_vars", 0) + 1
         # units of connected variables: one name per connected set (or a compatible alternative)
         set_units = {}
         for v in m.all_vars():
             if v.eqs:
                 g = find(v.tag)
+                if g not in set_units and r.random() < 0.5:
+                    # two units of the same dimension reached through DIFFERENT chains of user-defined units (depth 1-4,
+                    # exponents != 1, prefixes and multipliers on every level): b^(e1*e2*..*ed) vs a flat or shallow partner
+                    set_units[g] = self.units_chain_pair(m, utaken, units_names)
                 if g not in set_units:
                     base = r.choice(["second", "volt", "dimensionless"] + local_defined)
                     names = [base]
@@ -1580,6 +1673,21 @@ def f_units_incompatible(w, r, g):
         return None
     c, v = p
     other = m.var(v.eqs[0].to)
+    for ch in getattr(m, "chains", []):
+        if {v.units, other.units} == {ch["top"], ch["partner"]} and r.random() < 0.8:
+            # one exponent somewhere along the chain changes (any level, also the innermost / outermost): the product of the
+            # exponents, hence the dimension of the top of the chain, changes; the partner is not defined from the chain
+            lvl = r.randrange(ch["depth"])
+            u = [x for x in m.units if x.name == ch["levels"][lvl]][0]
+            used_by_others = any(x.units in ch["levels"] and x.eqs and x is not v and x is not other for x in m.all_vars())
+            if used_by_others:
+                break
+            a, b = u.items[0].exp
+            na = a + b if a + b != 0 else a + 2 * b
+            u.items[0].exp = (na, b)
+            assert (na, b) != (a, b) and na != 0
+            return {"where": "equivalence/units-chain/depth%d/level%d" % (ch["depth"], lvl + 1), "cite": ["MAP_VARIABLES_ELEMENT"],
+                    "chain": {"depth": ch["depth"], "level": lvl + 1}}
     mine = [u for u in m.units if u.name == v.units and u.imp is None and u.items]
     if other.units != v.units and mine and r.random() < 0.6:
         # same names, another definition: the units of this side gets a further base unit
@@ -1828,4 +1936,45 @@ def number_world(pos, s):
         rhs = E("cn", [T("1")], un)
     c.math = [E("math", [E("apply", [E("eq"), E("ci", [T("y")]), rhs])])]
     m.comps = [c]
+    return [m]
+
+
+# ----------------------------------------------------------------------------------------------- units chains (directed)
+
+def chain_world(exps, fault_level=None, partner_wrong=False, prefixes=("", "milli", "3", "kilo"), second_base=False):
+    """two sibling components with one variable each, mapped; one variable in units u_d = (...(metre^e1 [* mole])^e2...)^ed,
+    the other in a flat units metre^(e1*..*ed) [* mole^(e2*..*ed)].  fault_level k: the exponent of level k is changed
+    (the two are then incompatible); partner_wrong: the flat partner gets another exponent."""
+    from math import gcd
+    m = Model("chains")
+    prev = None
+    for lvl, e in enumerate(exps):
+        if fault_level == lvl + 1:
+            e = (e[0] + e[1] if e[0] + e[1] != 0 else e[0] + 2 * e[1], e[1])
+        u = Units("lvl%d" % (lvl + 1))
+        u.items.append(Item("metre" if lvl == 0 else prev, prefixes[lvl % len(prefixes)], e, (lvl % 3 - 1, 1)))
+        if lvl == 0 and second_base:
+            u.items.append(Item("mole", "", (1, 1)))
+        m.units.append(u)
+        prev = u.name
+    num, den = 1, 1
+    for (a, b) in exps:
+        num, den = num * a, den * b
+    g_ = gcd(abs(num), den)
+    tot = (num // g_, den // g_)
+    if partner_wrong:
+        tot = (tot[0] + tot[1], tot[1]) if tot[0] + tot[1] != 0 else (tot[0] + 2 * tot[1], tot[1])
+    flat = Units("flat", "", None, [Item("metre", "centi", tot, (2, 1))])
+    if second_base:
+        o = (1, 1)
+        for (a, b) in exps[1:]:
+            o = (o[0] * a, o[1] * b)
+        g2 = gcd(abs(o[0]), o[1])
+        flat.items.append(Item("mole", "milli", (o[0] // g2, o[1] // g2)))
+    m.units.insert(0, flat)
+    c1, c2 = Comp(1, "c1"), Comp(2, "c2")
+    c1.vars = [Var(11, "a", prev, iface="public")]
+    c2.vars = [Var(12, "b", "flat", iface="public")]
+    m.comps = [c1, c2]
+    add_equivalence(m, 11, 12)
     return [m]
